@@ -5,7 +5,7 @@ from ..core import rule
 from ..index import AnalysisError, dotted, src, walk_no_nested, names_in
 from ..cfg import CFG
 from ..domains import check_pred, check_exprs, linform, Lin
-from ..util import node_calls, own_expr
+from ..util import node_calls, own_expr, pred_is
 from .slots import BINCOUNTS, BINNING
 
 FN = 'blacklisted_binning'
@@ -375,34 +375,36 @@ def r4(ctx):
     tail = [s for s in f.body if isinstance(s, ast.If) and any(isinstance(x, ast.Yield) for b in s.body for x in walk_no_nested(b))]
     okt = False
     detail = 'no tail step'
+    ev = None      # the local holding the end of the last complete step (whatever it is called)
     if len(tail) == 1 and f.body.index(tail[0]) > f.body.index(loops[0]) if loops else False:
         t = tail[0]
         yv = [x for b in t.body for x in walk_no_nested(b) if isinstance(x, ast.Yield)][0].value
-        try:
-            n, bad = check_pred(t.test, lambda e: e['e'] < e['end'], symbols=['e', 'end'], atom_name=lambda x: {'e': 'e', a_end: 'end'}.get(src(x)))
-            okt = not bad and isinstance(yv, ast.Tuple) and [src(x) for x in yv.elts] == ['e', a_end]
-            detail = f'tail `if {src(t.test)}: yield {src(yv)}`'
-        except AnalysisError as ex:
-            detail = str(ex)
+        if isinstance(yv, ast.Tuple) and len(yv.elts) == 2 and isinstance(yv.elts[0], ast.Name) and src(yv.elts[1]) == a_end:
+            ev = yv.elts[0].id
+            okt = pred_is(t.test, lambda e: e['e'] < e['end'], {ev: 'e', a_end: 'end'})
+        detail = f'tail `if {src(t.test)}: yield {src(yv)}`'
     ctx.emit('C17-R4', ok_loop and okt, BINCOUNTS, f, f'fill_range: {detail}' + ('' if ok_loop else '; main loop is not range(start, end, step)'), key='fill-range-tail')
     # in-loop: yield (s, s+step) only when it fits
-    if loops:
+    if loops and ev is not None:
         l = loops[0]
         sv = l.target.id if isinstance(l.target, ast.Name) else None
         cfg = CFG(l.body, exceptions=False)
         ok = True
+        over = lambda t_: pred_is(t_, lambda e: e['e'] > e['end'], {ev: 'e', a_end: 'end'})
         for p, _ in cfg.paths():
             y = [cfg.nodes[nid] for nid, _l in p if cfg.nodes[nid].kind == 'stmt' and isinstance(cfg.nodes[nid].ast, ast.Expr) and isinstance(cfg.nodes[nid].ast.value, ast.Yield)]
-            took_over = any(cfg.nodes[nid].kind == 'test' and lab == 'true' and src(cfg.nodes[nid].ast.test) in (f'e > {a_end}',) for nid, lab in p)
+            took_over = any(cfg.nodes[nid].kind == 'test' and lab == 'true' and over(cfg.nodes[nid].ast.test) for nid, lab in p)
             if y and took_over:
                 ok = False
-            if y and src(y[0].ast.value.value) not in (f'({sv}, e)', f'{sv}, e'):
+            if y and src(y[0].ast.value.value) not in (f'({sv}, {ev})', f'{sv}, {ev}'):
                 ok = False
-        asg = [s for s in l.body if isinstance(s, ast.Assign) and src(s.targets[0]) == 'e']
+        asg = [s for s in l.body if isinstance(s, ast.Assign) and src(s.targets[0]) == ev]
         ok = ok and bool(asg) and linform(asg[0].value) == Lin({sv: 1, a_step: 1})
-        brk = [s for s in walk_no_nested(l) if isinstance(s, ast.If) and src(s.test) == f'e > {a_end}']
-        okb = len(brk) == 1 and any(isinstance(x, ast.Break) for x in brk[0].body) and any(isinstance(x, ast.Assign) and linform(x.value) == Lin({'e': 1, a_step: -1}) and src(x.targets[0]) == 'e' for x in brk[0].body)
+        brk = [s for s in walk_no_nested(l) if isinstance(s, ast.If) and over(s.test)]
+        okb = len(brk) == 1 and any(isinstance(x, ast.Break) for x in brk[0].body) and any(isinstance(x, ast.Assign) and linform(x.value) == Lin({ev: 1, a_step: -1}) and src(x.targets[0]) == ev for x in brk[0].body)
         ctx.emit('C17-R4', ok and okb, BINCOUNTS, l, 'fill_range loop yields (s, s+step) only while s+step <= end and hands the remainder to the tail step', key='fill-range-loop')
+    elif loops:
+        ctx.emit('C17-R4', False, BINCOUNTS, loops[0], 'fill_range: the tail step `yield <last end>, end` was not found, the loop cannot be related to it', key='fill-range-loop', undecided=True)
 
 
 @rule('C17', 'C17-R5', 'bp_chunked puts every bin into exactly one chunk and emits the last chunk')
